@@ -112,8 +112,19 @@ ENTRIES = [
 ]
 
 
-def _is_cache_slot_write(origin, info):
-    return info[0] == 'emmet.stylesheet.parse' and info[2].replace(' ', '').startswith("config.cache['") and '=' in info[2]
+def _is_cache_slot_write(p, origin, info):
+    """the one sanctioned write to a caller object: stylesheet.parse stores the converted snippets *into the cache dict itself*
+    (origin config.cache, not something stored in it) by a plain subscript assignment under a constant key"""
+    if info[0] != 'emmet.stylesheet.parse':
+        return False
+    from .. import shape
+    f = p.funcs[info[0]]
+    defs = shape.defs_of(f.node, params=f.params)
+    cfg = f.params[1] if len(f.params) > 1 else 'config'
+    for n in f.body_nodes():
+        if isinstance(n, ast.Assign) and len(n.targets) == 1 and isinstance(n.targets[0], ast.Subscript) and src_of(n) == info[2]:
+            return isinstance(p.try_const(f, n.targets[0].slice), str) and src_of(shape.expand(n.targets[0].value, defs)) == '%s.cache' % cfg
+    return False
 
 
 @rule('OWN-CALLER', 'D', 'objects supplied by the caller (config dicts, Config, global config, options) are never mutated, except the cache slot and verified temporary overrides')
@@ -131,7 +142,7 @@ def own_caller(p, res):
             hits = [(o, info) for o, info in s.all_sites() if o[0] == ('param', pname)]
             bad = 0
             for o, info in sorted(hits, key=lambda x: (len(x[0][1]), x[1][1])):
-                if _is_cache_slot_write(o, info):
+                if _is_cache_slot_write(p, o, info):
                     continue
                 if o[1][:2] == ('cache', '*') or (info[0], info[2]) in cache_keys:
                     continue          # OWN-CACHE reports these
@@ -279,11 +290,33 @@ def own_cache(p, res):
                                 res.bad(F('OWN-CACHE', g, n, src_of(n), 'field of a cached snippet object is written outside its constructor'))
         res.ok('%s fields written only by the constructor' % c.name)
     # the cache is read/written under one constant key, the stored value is the unfiltered list
-    ps = src_of(f.node)
-    if "config.cache.get('stylesheet_snippets') if config.cache is not None else None" in ps and "config.cache['stylesheet_snippets'] = snippets" in ps:
-        res.ok('cache slot stylesheet_snippets read and written consistently')
+    from .. import shape
+    v = shape.View(p, f, inline=False)
+    cfg = f.params[1] if len(f.params) > 1 else 'config'
+    slot = '%s.cache' % cfg
+    reads, writes = [], []
+    for n in v.nodes:
+        if isinstance(n, ast.Call) and isinstance(n.func, ast.Attribute) and n.func.attr == 'get' and v.x(n.func.value) == slot and n.args:
+            reads.append((n, p.try_const(f, n.args[0])))
+        elif isinstance(n, ast.Subscript) and v.x(n.value) == slot:
+            (writes if isinstance(n.ctx, ast.Store) else reads).append((n, p.try_const(f, n.slice)))
+    keys = {k for _, k in reads + writes}
+    if not reads or not writes:
+        res.undecided('stylesheet.parse: cache slot', 'expected one read and one write of %s[<key>]' % slot)
+    elif len(keys) == 1 and isinstance(next(iter(keys)), str):
+        res.ok('cache slot %r read and written under the same constant key' % next(iter(keys)))
+    elif all(isinstance(k, str) for k in keys):
+        res.bad(F('OWN-CACHE', f, writes[0][0], 'cache keys %s' % sorted(keys), 'the cache is read under one key and written under another: the cached list is never found again (or another entry is overwritten)'))
     else:
-        res.bad(F('OWN-CACHE', f, f.node, 'cache slot access', 'cache must be read with .get and written under the same constant key, guarded by `config.cache is not None`'))
+        res.undecided('stylesheet.parse: cache slot', 'the cache key is computed')
+    for n, k in reads + writes:
+        facts = v.facts(n)
+        if ('%s is not None' % slot, True) in facts or ('%s is None' % slot, False) in facts:
+            res.ok('%s guarded by `%s is not None`' % (src_of(n), slot))
+        elif any(fs in (slot, '%s is None' % slot, '%s is not None' % slot) for fs, _ in facts):
+            res.bad(F('OWN-CACHE', f, n, src_of(n), 'the cache is accessed on the branch where no cache was given (config.cache is None): AttributeError / TypeError'))
+        else:
+            res.undecided('stylesheet.parse: %s' % src_of(n), 'not visibly guarded by `%s is not None`' % slot)
     res.require_floor(4)
 
 
@@ -341,6 +374,9 @@ def own_astlist(p, res):
 
 
 # -------------------------------------------------------------- OWN-AMBIENT
+STATELESS_EXTERN = {'functools.partial', 'functools.reduce', 'functools.wraps', 'functools.cmp_to_key', 'functools.partialmethod'}
+
+
 @rule('OWN-AMBIENT', 'D', 'ambient state (random, time, os, id, hash, open, input) is used only by the lorem generator')
 def own_ambient(p, res):
     banned_builtins = {'id', 'hash', 'open', 'input', 'print', 'breakpoint'}
@@ -357,6 +393,8 @@ def own_ambient(p, res):
                 what = tgt[1] + '()'
             elif isinstance(tgt, tuple) and tgt[0] == 'extern' and str(tgt[1]).split('.')[0] in banned_mods:
                 what = tgt[1]
+                if str(what) in STATELESS_EXTERN:
+                    continue
             if what is None:
                 continue
             n += 1
@@ -368,7 +406,11 @@ def own_ambient(p, res):
         for st in ast.walk(m.tree):
             if isinstance(st, (ast.Import, ast.ImportFrom)):
                 names = [a.name for a in st.names] if isinstance(st, ast.Import) else [st.module or '']
+                if isinstance(st, ast.ImportFrom) and all('%s.%s' % (st.module, a.name) in STATELESS_EXTERN for a in st.names):
+                    continue
                 for nm in names:
+                    if nm == 'functools' and isinstance(st, ast.Import):
+                        continue        # judged per call site above (partial/reduce are stateless, lru_cache is not)
                     if nm.split('.')[0] in banned_mods and not m.name.startswith('emmet.markup.lorem'):
                         res.bad(Finding('OWN-AMBIENT', m.relpath, m.name[6:], src_of(st), 'module imports %s' % nm, st.lineno))
     res.stats['ambient_call_sites'] = n
